@@ -176,6 +176,32 @@ PROPS['C20'] = dict(
 PROPS['C16']['streams'] = lambda tier: config_streams(tier) + [exec_stream(tier)]
 
 
+def escape_streams(tier):
+    stride = {'quick': '211', 'extended': '53', 'thorough': '1'}[tier]
+    n = {'quick': 48000, 'extended': 400000, 'thorough': 3000000}[tier]
+    return [dict(name='exhaustive-short', harness=['escape', 'exh', stride, '{shard}', '{nshards}'], driver='escape', timeout=3400),
+            dict(name='random', harness=['escape', 'rand', str(n), '{seed}', '{shard}', '{nshards}'], driver='escape')]
+
+
+PROPS['C11'] = dict(
+    family='line', tags={'S': 'escape', 'D': 'escape'},
+    theorems=['C11_lossless', 'C11_printable', 'C11_exact', 'C11_utf8_round_trip'],
+    streams=escape_streams,
+    spec_kinds=['SPEC:C11'], corr_kinds=['DIFF:has_unprintable', 'DIFF:escaped_printable', 'DIFF:escaped_expectation', 'DIFF:decode'],
+    case_format='S <mode a|u> <hex of line content> <1 = line ends in LF>|<has_unprintable>|<hex of escaped_printable>|<P plain or E escaped>:<hex of the written text>|<read back through ExpectationMaker: matches line+LF, matches line, matches a line with one byte changed, matches the doubled line>   '
+                'D <hex of an escaped text>|<escaped:hex of the bytes the real reader resolves it to | err>',
+    rule='exhaustive: every byte string of length <= 2 (no LF) and every Unicode scalar (stride 211 in quick, all in thorough) alone, after a backslash and before backslash-t-TAB, both modes; '
+         'random: lines biased to backslashes, control characters, multi-byte and invalid UTF-8 (up to 200 bytes); D: arbitrary escaped texts incl. \\x+f, \\0NN, trailing backslash, non-ASCII after a backslash. '
+         'Non-trivial: non-empty content; distinct by (mode, content)',
+    manifest=dict(text='Machine-checked theorems (Coq) for BOTH escaping modes over all byte strings: the text written for a line either is the line (when printable) or decodes, by the model of the (escaped) reader, to exactly the line content; every written character is printable in the mode (unicode: against the is_other table regenerated from the linked crate); an escaped expectation matches exactly the lines with that content; strict UTF-8 decode/encode are inverse. Tied to /repo by running Escaper::{has_unprintable, escaped_printable, escaped_expectation} and ExpectationMaker::parse(..).matches on exhaustive-short and random byte strings and comparing with the extracted model; the reader model is applied to the text the implementation wrote.',
+                  technique='Coq proof (UTF-8 codec by div/mod arithmetic, per-character simulation of writer and two-pass reader, finite table sweep lifted by forallb_forall) + table regenerated from the linked crate + differential correspondence'),
+    exhaustive={'quick': False, 'thorough': False},
+    assumptions=['"unassigned" code points: the linked unicode_categories crate reports only Cc, Cf and Co as other; the property is stated against that table',
+                 'String::from_utf8 / from_utf8_lossy are modelled by the strict decoder utf8_decode (validated against the implementation on invalid sequences)',
+                 'a Plain line is read back as an equal expectation: whether the line *looks like* another kind of expectation is C08/C09, not C11'],
+)
+
+
 def run_one(prop, inp, ctx):
     """re-run one case through the implementation and the model; returns CASE lines"""
     cfg = PROPS[prop]
@@ -187,7 +213,7 @@ def run_one(prop, inp, ctx):
     if fam == 'line':
         # generic: the case line carries the implementation's result; re-evaluate the model/oracle on it
         tag = inp[:1]
-        drv = {'X': 'exec', 'R': 'cli', 'V': 'validate', 'E': 'config', 'A': 'config', 'D': 'config', 'P': 'config'}.get(tag, cfg['streams']('quick')[0]['driver'])
+        drv = cfg.get('tags', {}).get(tag) or {'X': 'exec', 'R': 'cli', 'V': 'validate', 'E': 'config', 'A': 'config', 'D': 'config', 'P': 'config', 'S': 'escape'}.get(tag, cfg['streams']('quick')[0]['driver'])
         rc, out = ctx['sh']([ctx['SVD'], drv], inp=(inp + '\n').encode())
         return [l for l in out.split('\n') if l.startswith('CASE')], out
     return [], ''
